@@ -33,6 +33,24 @@ def corpus():
 def cases(rng, tier):
     out = []
     n = 30 if tier == "quick" else 1000
+    # (a) a flush backlog: the first rotation is flushed, the flush worker then parks, two more rotations
+    #     queue up; REPLAY while parked must list the passive copies in rotation (= append) order
+    for i in range(2 if tier == "quick" else 40):
+        cfg = dict(rng.choice(shardprop.CFGS)); cfg["wildcard_replay"] = False
+        cap = cfg["fill_factor"] * cfg["event_per_zone"]
+        ops = [("S", 0, 0) for _ in range(cap)]
+        ops += [("PARK", "fw_begin")] + [("SN", 0, 0) for _ in range(cap)] + [("WAITP", "fw_begin")]
+        ops += [("SN", 0, 0) for _ in range(cap)] + [("OP", "fw_begin"), ("OP", "fw_begin")]
+        ops += [("RELEASE", "fw_begin"), ("SETTLE",), ("O",)]
+        out.append(shardprop.mk_case("passive-backlog", cfg, 1, 1, ops))
+    # (b) large memtables (more than 20 events per flush) with two event types: the flusher's regrouping by
+    #     type must keep append order inside a context
+    for i in range(2 if tier == "quick" else 40):
+        cfg = {"fill_factor": rng.choice([6, 8, 11]), "event_per_zone": rng.choice([4, 5]), "segments_per_merge": 2, "wildcard_replay": False}
+        cap = cfg["fill_factor"] * cfg["event_per_zone"]
+        ops = [("SN", rng.below(2), rng.below(2)) for _ in range(cap)] + [("SETTLE",), ("O",)]
+        ops += [("SN", rng.below(2), 0) for _ in range(cap + 3)] + [("SETTLE",), ("O",)]
+        out.append(shardprop.mk_case("big-flush", cfg, 2, 2, ops))
     for i in range(n):
         cfg = dict(rng.choice(shardprop.CFGS))
         cfg["segments_per_merge"] = rng.choice([2, 3])
